@@ -94,17 +94,24 @@ def oracle_connect(case):
     # identified with one base gate only (left: an input of other is fed by one gate; right: it is written
     # over the one base input it replaces), so a call that returns although oc repeats a gate has dropped
     # a pair silently
-    if len(oc) == len(tc) and len(set(oc)) != len(oc) and len(set(zip(oc, tc))) != len(set(oc)):
+    bg, og = gates_of(base), gates_of(other)
+    multi = len(oc) == len(tc) and len(set(oc)) != len(oc) and len(set(zip(oc, tc))) != len(set(oc))
+    if multi and not right:
+        # LEFT: one input of `other` cannot be fed by two different base gates - a normal return is contradictory
         dropped = [(o, t) for o, t in zip(oc, tc) if dict(zip(oc, tc))[o] != t]
-        return (f'connector pairs {dropped} were not identified: the call returned although the gate of the '
+        return (f'connector pairs {dropped} were not identified: the call returned although the input of the '
                 f'attached circuit is paired with several base gates')
+    if multi and any(og[o][0] == 'INPUT' for o in oc if oc.count(o) > 1):
+        return None       # RIGHT, one INPUT of other paired with several base inputs: nothing definite is documented
+    # RIGHT with one gate of `other` feeding several base inputs: whether this is refused (as the repaired library
+    # does) or realised, every pair (t_i, o_i) must hold in what is returned - judged by the interface and the
+    # values below through the pair map t -> o
+    t2o = dict(zip(tc, oc))
     mapping = dict(zip(oc, tc))
     ren = lambda l: mapping[l] if l in mapping else prefix + l
-    bg, og = gates_of(base), gates_of(other)
     # documented interface
     if right:
-        exp_inputs = [i for i in base['inputs'] if not (i in mapping.values() and
-                      og[[o for o in mapping if mapping[o] == i][0]][0] != 'INPUT')]
+        exp_inputs = [i for i in base['inputs'] if not (i in t2o and og[t2o[i]][0] != 'INPUT')]
     else:
         exp_inputs = list(base['inputs'])
     exp_inputs += [ren(i) for i in other['inputs'] if i not in oc]
@@ -119,8 +126,7 @@ def oracle_connect(case):
         if right:
             oa = {x: (a[mapping[x]] if x in mapping else a[ren(x)]) for x in other['inputs']}
             vo = evalcorr.ref_eval(other, oa)
-            inv = {t: o for o, t in mapping.items()}
-            ba = {t: (vo[inv[t]] if t in inv else a[t]) for t in base['inputs']}
+            ba = {t: (vo[t2o[t]] if t in t2o else a[t]) for t in base['inputs']}
             vb = evalcorr.ref_eval(base, ba)
         else:
             vb = evalcorr.ref_eval(base, {t: a[t] for t in base['inputs']})
@@ -133,12 +139,16 @@ def oracle_connect(case):
         for l in og:
             if l in mapping and not right:
                 continue
+            if multi and l in mapping:
+                continue      # which of its base labels carries a gate that feeds several inputs is not documented
             if full.get(ren(l)) is not vo[l]:
                 return f'attached gate {l} (as {ren(l)}) computes {full.get(ren(l))} instead of {vo[l]} at {a}'
         got = cb.evaluate([a[i] for i in exp_inputs])
         exp = [vb[o] for o in base['outputs'] if o not in tc] + [vo[o] for o in other['outputs'] if o not in oc]
         if got != exp:
             return f'outputs {got} instead of {exp} at {a}'
+    if multi:
+        return None
     # no mutable state is shared with the attached circuit: later edits of either side stay local
     snap_other = ct.dump_circuit(co)
     snap_res = ct.dump_circuit(cb)
